@@ -1126,3 +1126,13 @@ def c09_l(ctx):
         ctx.check(len(incs) == 1, nuts, 'depth advances with every doubling', 'depth += 1',
                   'the tree depth is not advanced by one in every trip of the doubling loop',
                   fn=nuts, node=incs[0] if incs else lo)
+
+
+@obligation('C09-m', 'T2', 'no result buffer takes the dtype of a caller\'s array and then receives '
+            'computed values (shared sweep of C08-l, restricted to the modules this property is '
+            'anchored in; `*_like(x)` and `dtype=x.dtype` allocations)', floor=1,
+            necessary='every state a kernel stores is the state it computed: an integer-typed start point must not make the chain buffer an integer array (numpy truncates floats silently when they are assigned into an '
+                      'integer array)')
+def c09_dtype(ctx):
+    from .base import inherited_dtype_obligation
+    inherited_dtype_obligation(ctx, ['elfi.methods.mcmc'])
